@@ -2,7 +2,7 @@
    Only statements here; proofs live in DepsRender/Proofs.v.  M-model: DepsRender/Model.v (the code's passes and
    its slice/offset arithmetic), S-model: DepsRender/Spec.v (one-pass placement, end tags recognised in the
    document's own symbols).  `deps` (which JS/CSS is generated - property C04) is arbitrary in every theorem. *)
-From DJC Require Import Lib.Base DepsRender.Model DepsRender.Spec DepsRender.Proofs.
+From DJC Require Import Lib.Base DepsRender.Model DepsRender.Spec DepsRender.Proofs DepsRender.Fixed.
 Import Coq.Strings.String.StringSyntax.
 Local Delimit Scope string_scope with string.
 Local Arguments s2n s%string.
@@ -91,6 +91,14 @@ Theorem middleware_passthrough_and_type : forall c,
   (forall ty k d k' o, render_any c ty k d = ROk (k', o) -> k' = k).
 Proof. exact middleware_and_type_lemma. Qed.
 Print Assumptions middleware_passthrough_and_type.
+
+(* 8. The candidate repair (notes/fixes/C08-endtag-in-inserted-tags.patch: search the end tags in a copy whose
+      inserted blocks are blanked out) meets the specification for ALL texts and ALL generated JS/CSS - the guard of
+      theorem 3 disappears.  This is a theorem about the model of the PATCHED code (DepsRender/Fixed.v), not about
+      /repo as it is. *)
+Theorem candidate_fix_meets_spec : forall js css t, render_doc_fixed js css t = spec_doc js css t.
+Proof. exact render_doc_fixed_eq_spec. Qed.
+Print Assumptions candidate_fix_meets_spec.
 
 (* ---------- non-vacuity ---------- *)
 (* the guard of theorem 3 holds for realistic tags, with a placeholder of that kind present *)
